@@ -18,11 +18,12 @@ Zero == Cond("fit", <<2, -2>>, 1, 0, 0, 0, 1)             \* weight 0: monitored
 \* object as the first training condition (share = 1)
 Data1 == [Cond("data", <<1, -1, 2>>, 2, 1, 0, 1, 1) EXCEPT !.bs = 2]
 Data2 == [Cond("data", <<1, 2, -1, 0>>, -1, 1, 0, 1, 2) EXCEPT !.bs = 3]
+Data3 == [Cond("data", <<1, -1, 2>>, 2, 1, 0, 1, 1) EXCEPT !.bs = 1]          \* three batches: a first fit of four steps ends inside the second pass
 ValD == [Cond("data", <<1, -1, 2>>, 2, 1, 0, 1, 1) EXCEPT !.bs = 2, !.share = 1]
 \* a validation condition that only MONITORS the inverse parameter (a ParameterCondition on the same Parameter object)
 ValP == Cond("pen", <<>>, 0, 0, 2, 1, 1)
 TrainSets == {<<Fit1>>, <<Fit2>>, <<Fit1, Pen, Inv>>, <<Inv, Pen>>, <<Ada>>, <<Fit2, Ada>>, <<Pen, Fit1>>, <<Ada, Inv, Pen>>, <<Fit1, Fit2>>,
-              <<Fit1, Zero>>, <<Zero, Inv, Pen>>, <<Data1>>, <<Data2, Pen, Inv>>, <<Data1, Fit2>>, <<Ada2>>, <<Ada3>>, <<Ada3, Pen>>}
+              <<Fit1, Zero>>, <<Zero, Inv, Pen>>, <<Data1>>, <<Data2, Pen, Inv>>, <<Data1, Fit2>>, <<Data3>>, <<Data3, Pen, Inv>>, <<Ada2>>, <<Ada3>>, <<Ada3, Pen>>}
 Cfgs == {[a0 |-> a0, b0 |-> 0, k0 |-> 2, nl |-> 2, lrn |-> 1, lrd |-> lrd, mun |-> mun, mud |-> 2, ssize |-> ss, freq |-> fr,
           gn |-> 1, gd |-> 2, N |-> NSteps, train |-> tr, val |-> vl, val_interval |-> 2, ckint |-> ck, kill |-> kl, refit |-> rf, opt |-> op] :
             op \in (IF CkMode THEN {"sgd", "two"} ELSE {"sgd"}),        \* "two": the two-evaluation optimizer of Training.tla (crash / resume only)
@@ -30,7 +31,7 @@ Cfgs == {[a0 |-> a0, b0 |-> 0, k0 |-> 2, nl |-> 2, lrn |-> 1, lrd |-> lrd, mun |
             a0 \in {1, -1}, lrd \in {4, 2}, mun \in {0, 1}, ss \in {0, 1, 2}, fr \in {1, 2}, tr \in TrainSets, vl \in {<<>>, <<ValC>>, <<ValD>>, <<ValP>>},
             ck \in (IF CkMode THEN {1, 2} ELSE {0}), kl \in (IF CkMode THEN 1..(NSteps - 1) ELSE {0})}
 Valid(cfg) == (cfg.ssize = 0 => cfg.freq = 1) /\ (cfg.opt = "two" => cfg.mun = 0) /\ (CkMode => (cfg.kill - 1) % cfg.ckint = 0 /\ cfg.val = <<>>)
-              /\ (cfg.refit => cfg.val = <<>> /\ cfg.a0 = 1 /\ \A j \in DOMAIN cfg.train : cfg.train[j].kind # "data")
+              /\ (cfg.refit => cfg.val = <<>> /\ cfg.a0 = 1)
               /\ (cfg.val = <<ValD>> => cfg.train[1].kind = "data" /\ cfg.train[1].bs = 2)
               /\ (cfg.val = <<ValP>> => HasKind(cfg.train, "inv") \/ HasKind(cfg.train, "pen"))
               /\ (CkMode => \A j \in DOMAIN cfg.train : cfg.train[j].kind # "data")
